@@ -92,13 +92,67 @@ theorem HRel.unwind (pa : String) (T' T : Table) (h : HRel pa T' T) (e : Expr) (
 
 def projOut (p : Proj) (r : Row) : Row := p.items.map fun it => (it.alias, Spec.itemVal A env [r] it)
 
+theorem dedup_nodup (L : Table) : (Spec.dedupBy id L).Nodup := by
+  induction L with
+  | nil => exact List.nodup_nil
+  | cons x xs ih =>
+    simp only [Spec.dedupBy, id]
+    rw [List.nodup_cons]
+    refine ⟨?_, List.Pairwise.filter _ ih⟩
+    intro h
+    have := (List.mem_filter.mp h).2
+    simp at this
+
+theorem mem_dedup (L : Table) (a : Row) : a ∈ Spec.dedupBy id L ↔ a ∈ L := by
+  induction L with
+  | nil => simp [Spec.dedupBy]
+  | cons x xs ih =>
+    simp only [Spec.dedupBy, id, List.mem_cons, List.mem_filter, ih]
+    constructor
+    · rintro (h | ⟨h, _⟩)
+      · exact Or.inl h
+      · exact Or.inr h
+    · rintro (h | h)
+      · exact Or.inl h
+      · by_cases hax : a = x
+        · exact Or.inl hax
+        · exact Or.inr ⟨h, by simpa using hax⟩
+
+/-- DISTINCT respects permutations -/
+theorem dedup_perm (L' L : Table) (h : L'.Perm L) : (Spec.dedupBy id L').Perm (Spec.dedupBy id L) := by
+  rw [List.perm_ext_iff_of_nodup (dedup_nodup L') (dedup_nodup L)]
+  intro a
+  rw [mem_dedup, mem_dedup]
+  exact h.mem_iff
+
+/-- the table a bag projection denotes -/
+def projTable (p : Proj) (T : Table) : Table :=
+  if p.distinct then Spec.dedupBy id (T.map (projOut A env p)) else T.map (projOut A env p)
+
 theorem denoteProj_bag (p : Proj) (T : Table) (hb : bagProj p = true) :
-    Spec.denoteProj A env p none T = .ok (T.map (projOut A env p)) := by
+    Spec.denoteProj A env p none T = .ok (projTable A env p T) := by
   unfold bagProj coreProj at hb
   simp only [Bool.and_eq_true, Bool.not_eq_true', List.isEmpty_iff, Option.isNone_iff_eq_none] at hb
-  obtain ⟨⟨⟨⟨hplain, hord⟩, hdist⟩, hskip⟩, hlim⟩ := hb
-  simp [Spec.denoteProj, Spec.window, hskip, hlim, hord, hdist, Spec.projectRows, hplain, bind, Except.bind, pure,
-    Except.pure, List.map_map, Function.comp_def, projOut]
+  obtain ⟨⟨⟨hplain, hord⟩, hskip⟩, hlim⟩ := hb
+  unfold projTable
+  cases hd : p.distinct
+  · simp [Spec.denoteProj, Spec.window, hskip, hlim, hord, hd, Spec.projectRows, hplain, bind, Except.bind, pure,
+      Except.pure, List.map_map, Function.comp_def, projOut]
+  · have hfst : (Spec.projectRows A env p T).map (·.1) = T.map (projOut A env p) := by
+      simp [Spec.projectRows, hplain, List.map_map, Function.comp_def, projOut]
+    simp only [Spec.denoteProj, Spec.window, hskip, hlim, hord, hd, bind, Except.bind, pure, Except.pure,
+      List.isEmpty_nil, ↓reduceIte, dedupBy_map_fst, hfst]
+
+theorem projTable_cols (pa : String) (p : Proj) (T : Table) (hal : pa ∉ p.items.map (·.alias)) :
+    ∀ r ∈ projTable A env p T, pa ∉ r.cols := by
+  intro r hr
+  have hmem : r ∈ T.map (projOut A env p) := by
+    unfold projTable at hr
+    split at hr
+    · exact (mem_dedup _ r).mp hr
+    · exact hr
+  obtain ⟨r0, _, rfl⟩ := List.mem_map.mp hmem
+  simpa [projOut, Row.cols, List.map_map, Function.comp_def] using hal
 
 theorem projOut_erase (pa : String) (p : Proj) (s : List String) (hs : pa ∉ s)
     (hitems : p.items.all (fun it => match it.expr with | .plain e => Spec.exprOk s e | .agg _ a => Spec.exprOk s a) = true)
@@ -131,6 +185,31 @@ theorem HRel.proj (pa : String) (T' T : Table) (h : HRel pa T' T) (p : Proj) (s 
     simpa [projOut, Row.cols, List.map_map, Function.comp_def] using hal
   rw [this]
   exact h.map _
+
+theorem map_erase_id (pa : String) (X : Table) (h : ∀ r ∈ X, pa ∉ r.cols) : X.map (eraseCol pa) = X := by
+  have : X.map (eraseCol pa) = X.map id := by
+    apply List.map_congr_left
+    intro r hr
+    exact eraseCol_of_not_mem pa r (h r hr)
+  rw [this, List.map_id]
+
+theorem HRel.projT (pa : String) (T' T : Table) (h : HRel pa T' T) (p : Proj) (s : List String) (hs : pa ∉ s)
+    (hitems : p.items.all (fun it => match it.expr with | .plain e => Spec.exprOk s e | .agg _ a => Spec.exprOk s a) = true)
+    (hplain : p.items.any Spec.isAgg = false) (hal : pa ∉ p.items.map (·.alias)) :
+    HRel pa (projTable A env p T') (projTable A env p T) := by
+  have h0 := HRel.proj A env pa T' T h p s hs hitems hplain hal
+  unfold HRel at h0 ⊢
+  rw [map_erase_id pa _ (projTable_cols A env pa p T' hal)]
+  have hid : (T'.map (projOut A env p)).map (eraseCol pa) = T'.map (projOut A env p) := by
+    apply map_erase_id
+    intro r hr
+    obtain ⟨r0, _, rfl⟩ := List.mem_map.mp hr
+    simpa [projOut, Row.cols, List.map_map, Function.comp_def] using hal
+  rw [hid] at h0
+  unfold projTable
+  cases p.distinct
+  · exact h0
+  · exact dedup_perm _ _ h0
 
 /-! ### the reference's core clauses respect `HRel` -/
 
@@ -187,7 +266,7 @@ theorem denote_bag_congr (pa : String) (q : Query) : ∀ (b : Bool) (s s' : List
           obtain ⟨⟨⟨⟨_, _⟩, hitems⟩, _⟩, _⟩ := hok
           simp only [Spec.denoteClauses, denoteProj_bag A env p _ hc'.1, bind, Except.bind]
           exact ih true _ s' _ _ hc'.2 hs hin.1 hin.2
-            (HRel.proj A env pa T' T hrel p s hpa hitems hb.1.1.1.1 hin.1)
+            (HRel.projT A env pa T' T hrel p s hpa hitems hb.1.1.1 hin.1)
         · cases hs
     | return_ p =>
       have hc' : bagProj p = true ∧ rest = [] := by
@@ -205,20 +284,14 @@ theorem denote_bag_congr (pa : String) (q : Query) : ∀ (b : Bool) (s s' : List
         unfold Spec.projOk at hok
         simp only [Bool.and_eq_true] at hok
         obtain ⟨⟨⟨⟨_, _⟩, hitems⟩, _⟩, _⟩ := hok
-        have hr := HRel.proj A env pa T' T hrel p s hpa hitems hb.1.1.1.1 hin
-        have hord : p.orderBy = [] := hb.1.1.1.2
-        refine ⟨.bag (T'.map (projOut A env p)), .bag (T.map (projOut A env p)), ?_, ?_, ?_⟩
+        have hr := HRel.projT A env pa T' T hrel p s hpa hitems hb.1.1.1 hin
+        have hord : p.orderBy = [] := hb.1.1.2
+        refine ⟨.bag (projTable A env p T'), .bag (projTable A env p T), ?_, ?_, ?_⟩
         · simp [Spec.denoteClauses, denoteProj_bag A env p _ hcp, bind, Except.bind, pure, Except.pure, hord]
         · simp [Spec.denoteClauses, denoteProj_bag A env p _ hcp, bind, Except.bind, pure, Except.pure, hord]
-        · show (T'.map (projOut A env p)).Perm (T.map (projOut A env p))
+        · show (projTable A env p T').Perm (projTable A env p T)
           unfold HRel at hr
-          have hid : (T'.map (projOut A env p)).map (eraseCol pa) = T'.map (projOut A env p) := by
-            rw [List.map_map]
-            apply List.map_congr_left
-            intro r _
-            apply eraseCol_of_not_mem
-            simpa [projOut, Row.cols, List.map_map, Function.comp_def] using hin
-          rw [hid] at hr
+          rw [map_erase_id pa _ (projTable_cols A env pa p T' hin)] at hr
           exact hr
       · cases hs
 
@@ -453,10 +526,10 @@ theorem bagClauses_core (q : Query) : ∀ b, bagClauses b q = true → coreClaus
       cases w with
       | some w => cases b <;> simp [bagClauses] at h
       | none =>
-        cases b <;> simp [bagClauses, coreClauses, bagProj] at h ⊢ <;> exact ⟨h.1.1.1.1, ih true h.2⟩
+        cases b <;> simp [bagClauses, coreClauses, bagProj] at h ⊢ <;> exact ⟨h.1.1.1, ih true h.2⟩
     | return_ p =>
       cases rest with
-      | nil => cases b <;> simp [bagClauses, coreClauses, bagProj] at h ⊢ <;> exact h.1.1.1
+      | nil => cases b <;> simp [bagClauses, coreClauses, bagProj] at h ⊢ <;> exact h.1.1
       | cons c' r' => cases b <;> simp [bagClauses] at h
 
 /-- predicates pushed down from the clause that follows the MATCH -/
